@@ -19,8 +19,9 @@ import (
 // value found in the innermost enclosing vars block that defines v); both must compile to
 // the same diagram.
 type c13Use struct {
-	Kind string `json:"kind"` // alone | unquoted | dq | sq | edge | fill | width
+	Kind string `json:"kind"` // alone | unquoted | dq | sq | edge | fill | width | twice | pair | pairdq | array
 	Var  string `json:"var"`
+	Var2 string `json:"var2,omitempty"` // pair kinds: a second, different substitution in the same string
 }
 
 type c13Scope struct {
@@ -99,6 +100,21 @@ func (c c13Case) print() (p, twin string, undefined []string, shadowUsed bool, i
 			if !found && u.Kind != "sq" {
 				undefined = append(undefined, u.Var)
 			}
+			// second variable of the pair kinds
+			val2, found2 := "", true
+			if u.Var2 != "" {
+				found2 = false
+				for i := len(chain) - 1; i >= 0; i-- {
+					if v, ok := chain[i].Vars[u.Var2]; ok {
+						val2, found2 = v, true
+						break
+					}
+				}
+				if !found2 {
+					undefined = append(undefined, u.Var2)
+				}
+			}
+			ref2 := "${" + u.Var2 + "}"
 			ref := "${" + u.Var + "}"
 			var lp, lt string
 			id := fmt.Sprintf("u%d", counter)
@@ -119,6 +135,15 @@ func (c c13Case) print() (p, twin string, undefined []string, shadowUsed bool, i
 				lp, lt = id+".style.fill: "+ref, id+".style.fill: "+quoteVarValue(val)
 			case "width":
 				lp, lt = id+".width: "+ref, id+".width: "+quoteVarValue(val)
+			case "pair":
+				insideString = true
+				lp, lt = id+": "+ref+" and "+ref2, id+": "+val+" and "+val2
+			case "pairdq":
+				insideString = true
+				lp, lt = id+": \""+ref+"/"+ref2+"\"", id+": \""+val+"/"+val2+"\""
+			case "array":
+				insideString = true
+				lp, lt = id+".class: [k; x"+ref+ref2+"]", id+".class: [k; x"+val+val2+"]"
 			case "twice":
 				insideString = true
 				lp, lt = id+": "+ref+"-"+ref, id+": "+val+"-"+val
@@ -208,7 +233,12 @@ func genC13Scope(t *rapid.T, depth int, name string) *c13Scope {
 		if vn == "n" {
 			kinds = append(kinds, "width", "width")
 		}
-		s.Uses = append(s.Uses, c13Use{Kind: rapid.SampledFrom(kinds).Draw(t, "ukind"), Var: vn})
+		u := c13Use{Kind: rapid.SampledFrom(kinds).Draw(t, "ukind"), Var: vn}
+		if gen.Pick(t, "pair", 3, 1) == 1 {
+			u.Kind = rapid.SampledFrom([]string{"pair", "pairdq", "array"}).Draw(t, "pairkind")
+			u.Var2 = rapid.SampledFrom(c13VarNames).Draw(t, "uvar2")
+		}
+		s.Uses = append(s.Uses, u)
 	}
 	if depth < 3 {
 		nc := rapid.IntRange(0, 2).Draw(t, "nchildren")
@@ -225,12 +255,16 @@ func genC13(t *rapid.T) c13Case {
 
 func coreC13() []c13Case {
 	return []c13Case{
-		{Root: &c13Scope{Vars: map[string]string{"v": "outer", "col": "red"}, VarOrder: []string{"v", "col"}, Uses: []c13Use{{"alone", "v"}, {"dq", "v"}, {"sq", "v"}, {"fill", "col"}},
-			Children: []*c13Scope{{Name: "c", Vars: map[string]string{"v": "inner"}, VarOrder: []string{"v"}, Uses: []c13Use{{"alone", "v"}, {"unquoted", "v"}, {"edge", "v"}, {"fill", "col"}},
-				Children: []*c13Scope{{Name: "d", Vars: map[string]string{}, Uses: []c13Use{{"twice", "v"}, {"alone", "col"}}}}}}}},
-		{Root: &c13Scope{Vars: map[string]string{"v": "x"}, VarOrder: []string{"v"}, Uses: []c13Use{{"alone", "missing"}}}},
-		{Root: &c13Scope{Vars: map[string]string{"deep.k": "nested value"}, VarOrder: []string{"deep.k"}, Uses: []c13Use{{"alone", "deep.k"}, {"dq", "deep.k"}}}},
-		{Root: &c13Scope{Vars: map[string]string{"n": "120"}, VarOrder: []string{"n"}, Uses: []c13Use{{"width", "n"}, {"unquoted", "n"}}}},
+		{Root: &c13Scope{Vars: map[string]string{"v": "outer", "col": "red"}, VarOrder: []string{"v", "col"}, Uses: []c13Use{{Kind: "alone", Var: "v"}, {Kind: "dq", Var: "v"}, {Kind: "sq", Var: "v"}, {Kind: "fill", Var: "col"}},
+			Children: []*c13Scope{{Name: "c", Vars: map[string]string{"v": "inner"}, VarOrder: []string{"v"}, Uses: []c13Use{{Kind: "alone", Var: "v"}, {Kind: "unquoted", Var: "v"}, {Kind: "edge", Var: "v"}, {Kind: "fill", Var: "col"}},
+				Children: []*c13Scope{{Name: "d", Vars: map[string]string{}, Uses: []c13Use{{Kind: "twice", Var: "v"}, {Kind: "alone", Var: "col"}}}}}}}},
+		{Root: &c13Scope{Vars: map[string]string{"v": "x"}, VarOrder: []string{"v"}, Uses: []c13Use{{Kind: "alone", Var: "missing"}}}},
+		{Root: &c13Scope{Vars: map[string]string{"v": "x"}, VarOrder: []string{"v"}, Uses: []c13Use{{Kind: "pair", Var: "v", Var2: "missing"}}}},
+		{Root: &c13Scope{Vars: map[string]string{"v": "x"}, VarOrder: []string{"v"}, Uses: []c13Use{{Kind: "pairdq", Var: "v", Var2: "missing"}}}},
+		{Root: &c13Scope{Vars: map[string]string{"v": "x"}, VarOrder: []string{"v"}, Uses: []c13Use{{Kind: "array", Var: "v", Var2: "missing"}}}},
+		{Root: &c13Scope{Vars: map[string]string{"v": "x", "w": "y"}, VarOrder: []string{"v", "w"}, Uses: []c13Use{{Kind: "pair", Var: "v", Var2: "w"}, {Kind: "pairdq", Var: "w", Var2: "v"}, {Kind: "array", Var: "v", Var2: "w"}}}},
+		{Root: &c13Scope{Vars: map[string]string{"deep.k": "nested value"}, VarOrder: []string{"deep.k"}, Uses: []c13Use{{Kind: "alone", Var: "deep.k"}, {Kind: "dq", Var: "deep.k"}}}},
+		{Root: &c13Scope{Vars: map[string]string{"n": "120"}, VarOrder: []string{"n"}, Uses: []c13Use{{Kind: "width", Var: "n"}, {Kind: "unquoted", Var: "n"}}}},
 	}
 }
 
